@@ -43,6 +43,9 @@ Passed(c, s) == {x \in Squares : /\ Abs(FileOf(x) - FileOf(s)) <= 1
                                  /\ IF c = WHITE THEN RankOf(x) > RankOf(s) ELSE RankOf(x) < RankOf(s)}
 StepTo(s, d) == IF OnBoard(FileOf(s) + DirVec[d][1], RankOf(s) + DirVec[d][2])
                 THEN SqOf(FileOf(s) + DirVec[d][1], RankOf(s) + DirVec[d][2]) ELSE 64
+SquareColour(s) == IF (FileOf(s) + RankOf(s)) % 2 = 0 THEN BLACK ELSE WHITE     \* a1 is a dark square
+\* the back-rank squares on the king's side / queen's side of the king's home square e1 / e8 (rook square included)
+CastleSide(s, side) == {x \in Squares : RankOf(x) = RankOf(s) /\ IF side = "K" THEN FileOf(x) > FileOf(s) ELSE FileOf(x) < FileOf(s)}
 RightBits(s) == (IF "K" \in RightsAt(s) THEN 1 ELSE 0) + (IF "Q" \in RightsAt(s) THEN 2 ELSE 0)
               + (IF "k" \in RightsAt(s) THEN 4 ELSE 0) + (IF "q" \in RightsAt(s) THEN 8 ELSE 0)
 
@@ -56,7 +59,12 @@ SquareEntries(s) ==
      <<"fileWest", <<s>>, FileWest(s)>>, <<"fileEast", <<s>>, FileEast(s)>>,
      <<"ranksNorth", <<s>>, RanksNorth(s)>>, <<"ranksSouth", <<s>>, RanksSouth(s)>>,
      <<"neighbours", <<s>>, FileWest(s) \cup FileEast(s)>>,
-     <<"center", <<s>>, CenterDist(s)>>, <<"castle", <<s>>, RightBits(s)>>}
+     <<"center", <<s>>, CenterDist(s)>>, <<"castle", <<s>>, RightBits(s)>>,
+     <<"fileBb", <<s>>, {x \in Squares : FileOf(x) = FileOf(s)}>>,
+     <<"rankBb", <<s>>, {x \in Squares : RankOf(x) = RankOf(s)}>>,
+     <<"colourBb", <<SquareColour(s), s>>, {x \in Squares : SquareColour(x) = SquareColour(s)}>>}
+    \cup (IF s \in {4, 60} THEN {<<"castleK", <<IF s = 4 THEN WHITE ELSE BLACK, s>>, CastleSide(s, "K")>>,
+                                <<"castleQ", <<IF s = 4 THEN WHITE ELSE BLACK, s>>, CastleSide(s, "Q")>>} ELSE {})
     \cup {<<"pawn", <<c, s>>, PawnAtt[c][s]>> : c \in Colors}
     \cup {<<"passed", <<c, s>>, Passed(c, s)>> : c \in Colors}
     \cup {<<"ray", <<o - 1, s>>, SeqToSet(Ray[s][OrientDir[o]])>> : o \in 1..8}
